@@ -18,6 +18,10 @@ RULE = ('operation sequences of length 4 (quick: every fourth one of the complet
         'a family with flapping enabled in which the detector (simulated exactly by the generator) is driven to toggle by alternating results before / while / after a long downtime begins, '
         'FlappingStart/FlappingEnd are withheld, and the first hard changes of an episode follow inside the same suppression from hard problem, hard OK and hard OK with a stale non-OK remembered state, then release '
         '(extra.episodes_begun_while_flapping_bit_pending counts episodes whose first state notification is stashed while a flapping bit is pending); '
+        'a family in which flapping ends or starts on the very result that is a hard change (the generator searches, with an exact copy of the detector, the number of steady results after which '
+        'the soft-to-hard step of an unchanged non-OK state, max 2..4, or a further non-OK result of a volatile object in a hard problem ends the flapping; flapping starting on a hard problem / hard recovery / '
+        'change between hard problem states; control: ending on a steady OK), each with no reason, inside a downtime begun before the flapping or just before the result, acknowledged, unreachable, '
+        'with state events pending from an earlier episode, paused, then release (extra.flapping_toggle_on_hard_change counts, on the implementation traces, flapping ends whose state notification was sent / stashed); '
         'non-trivial = at least one state notification was requested or withheld in the case; distinct = distinct script text')
 TRUSTED = ['model: coq/Ck/CkFull.v (transcription of Checkable::ProcessCheckResult, FireSuppressedNotifications, NotificationReasonSuppressed/Applies, '
            'IsLikelyToBeCheckedSoon, acknowledgement and downtime entry points; flapping in exact 1/100 % arithmetic); C02 proofs in coq/Ck/CkSupp*.v',
